@@ -9,6 +9,48 @@ import (
 	"verif.local/mc/ev"
 )
 
+// replayFile re-runs the case stored in a replay file (written by ev for a violation): Part A of the history
+// and, for Part B/C replays, the fault case with the recorded Part C variant. Prints the violations it sees;
+// exit status 1 if there is one, 0 otherwise. Does not write evidence.
+func replayFile(run *ev.Run, dom domain, file string) {
+	c := &checker{run: run, dbg: true, thorough: true}
+	b, err := os.ReadFile(file)
+	if err != nil {
+		fmt.Fprintln(os.Stderr, err)
+		os.Exit(2)
+	}
+	var f struct {
+		Replay struct {
+			Part    string `json:"part"`
+			History []Step `json:"history"`
+			K       int    `json:"fault_from_passive_op"`
+			Mode    string `json:"reinstate_in"`
+			Follow  int    `json:"follow_up_commits"`
+			Wipe    bool   `json:"wipe_passive_before_reinstate"`
+		} `json:"replay"`
+	}
+	if err := json.Unmarshal(b, &f); err != nil || len(f.Replay.History) == 0 {
+		fmt.Fprintln(os.Stderr, "not a C27 replay file:", err)
+		os.Exit(2)
+	}
+	r := f.Replay
+	ops, clean := c.partA(r.History)
+	fmt.Printf("history: %s\npart A clean=%v, passive ops of last step:\n  %s\n", histString(r.History), clean, strings.Join(ops, "\n  "))
+	if r.Part != "A" && r.K < len(ops) {
+		vs := dom.variants
+		if r.Mode != "" {
+			vs = []variant{{r.Mode, r.Follow, r.Wipe}}
+		}
+		c.partBC(r.History, r.K, ops, vs)
+	}
+	if c.nvio == 0 {
+		fmt.Println("no violation")
+		os.Exit(0)
+	}
+	fmt.Printf("violations: %d\n", c.nvio)
+	os.Exit(1)
+}
+
 // debugMain: `c27 debug list` | `c27 debug <history index> [A]` | `c27 debug replay <file>` — developer aid,
 // prints every violation of one history verbosely (does not write evidence).
 func debugMain(run *ev.Run, dom domain) {
@@ -20,34 +62,7 @@ func debugMain(run *ev.Run, dom domain) {
 		}
 		return
 	case "replay":
-		b, err := os.ReadFile(os.Args[3])
-		if err != nil {
-			panic(err)
-		}
-		var f struct {
-			Replay struct {
-				Part    string `json:"part"`
-				History []Step `json:"history"`
-				K       int    `json:"fault_from_passive_op"`
-				Mode    string `json:"reinstate_in"`
-				Follow  int    `json:"follow_up_commits"`
-				Wipe    bool   `json:"wipe_passive_before_reinstate"`
-			} `json:"replay"`
-		}
-		if err := json.Unmarshal(b, &f); err != nil {
-			panic(err)
-		}
-		r := f.Replay
-		ops, clean := c.partA(r.History)
-		fmt.Printf("history: %s\npart A clean=%v, passive ops of last step:\n  %s\n", histString(r.History), clean, strings.Join(ops, "\n  "))
-		if r.Part != "A" && r.K < len(ops) {
-			vs := dom.variants
-			if r.Mode != "" {
-				vs = []variant{{r.Mode, r.Follow, r.Wipe}}
-			}
-			c.partBC(r.History, r.K, ops, vs)
-		}
-		fmt.Printf("violations: %d\n", c.nvio)
+		replayFile(run, dom, os.Args[3])
 		return
 	}
 	var idx int
